@@ -2,6 +2,7 @@
 package c11
 
 import (
+	"math"
 	"fmt"
 	"strings"
 	"os"
@@ -387,6 +388,35 @@ func draw(t *rapid.T) Case {
 			cs.Pol = pol.Policy{{Op: "and", Sub: []pol.Stmt{like, {Op: "like", Sel: sel.Sel{{Kind: "field", Name: "s"}}, Pat: "a*"}}}}
 		}
 	}
+	forceCtor := false
+	if rapid.IntRange(0, 11).Draw(t, "focusbigint") == 0 {
+		// ordered comparisons between integers of large magnitude that differ by 1 or 2 (exact int64 arithmetic
+		// is the classical reading; anything that goes through float64 merges neighbours beyond 2^53). Literals
+		// beyond 2^53 can only be built through the constructors, data integers are unrestricted.
+		bases := []int64{1 << 53, (1 << 53) - 1, (1 << 53) + 1, -(1 << 53), -(1 << 53) - 1, 1 << 54, 1 << 62, math.MaxInt64 - 2, math.MinInt64 + 2, (1 << 53) + 1<<10, 3 << 60}
+		x := rapid.SampledFrom(bases).Draw(t, "bx")
+		d := int64(rapid.IntRange(-2, 2).Draw(t, "bd"))
+		y := x + d
+		lit, dat := val.Int(x), val.Int(y)
+		if rapid.Bool().Draw(t, "bswap") {
+			lit, dat = dat, lit
+		}
+		if rapid.IntRange(0, 2).Draw(t, "bsmall-lit") == 0 {
+			lit = val.Int(rapid.SampledFrom([]int64{(1 << 53) - 1, -((1 << 53) - 1), 0}).Draw(t, "bsl"))
+		}
+		op := rapid.SampledFrom([]string{"<", "<=", ">", ">=", "=="}).Draw(t, "bop")
+		cs.Data = val.Map(val.E("a", dat), val.E("l", val.List(dat, lit)))
+		cmpS := pol.Stmt{Op: op, Sel: sel.Sel{{Kind: "field", Name: "a"}}, Lit: &lit}
+		switch rapid.IntRange(0, 2).Draw(t, "bwrap") {
+		case 0:
+			cs.Pol = pol.Policy{cmpS}
+		case 1:
+			cs.Pol = pol.Policy{{Op: "not", Sub: []pol.Stmt{cmpS}}}
+		default:
+			cs.Pol = pol.Policy{{Op: "any", Sel: sel.Sel{{Kind: "field", Name: "l"}}, Sub: []pol.Stmt{{Op: op, Sel: sel.Sel{{Kind: "id"}}, Lit: &lit}}}}
+		}
+		forceCtor = true
+	}
 	cs.Q = pol.Gen(t, cs.Data, pol.GenCfg{Depth: 2, MaxStmt: 2}, "q")
 	cs.Perm = rapid.SliceOfN(rapid.IntRange(0, 5), 1, 8).Draw(t, "perm")
 	if rapid.Bool().Draw(t, "hasextra") {
@@ -398,7 +428,7 @@ func draw(t *rapid.T) Case {
 		e := val.Gen(t, val.Cfg{Depth: 1, SafeInts: true, Keys: []string{"x", "s", "a"}})
 		cs.ExtraEl = &e
 	}
-	cs.ViaCtor = rapid.Bool().Draw(t, "viactor")
+	cs.ViaCtor = rapid.Bool().Draw(t, "viactor") || forceCtor
 	cs.Missing = rapid.SampledFrom([]string{"zz", "missing", "q"}).Draw(t, "missing")
 	return cs
 }
